@@ -512,7 +512,9 @@ class InitSegment(MEContract):
     """init_segment(begin, 0, L-bsz+1) on an open chain establishes the class invariant: envs[k] exists exactly for
     0 <= k <= L-bsz with free block [k, k+bsz); begin='left': every envs[k] carries the right environment of the sites
     >= k+bsz, envs[0] the (empty) left environment, pos = 0; begin='right': mirror image, pos = L-bsz.
-    KNOWN DEFECT (kept failing): begin='right' with L == bsz reads the loop variable after an empty loop."""
+    Regression guard for finding C10-d (fixed in /repo): begin='right' with L == bsz used to read the loop variable after an
+    empty loop (`self.envs[i] |= ...`): with Loop.exact_last the read of an unbound local is the failed obligation
+    raise@L:no-raise-UnboundLocalError (natively replayed by `replay`)."""
 
     target = f"{ME}.init_segment"
     floor = 20
@@ -568,7 +570,7 @@ class InitSegment(MEContract):
     @property
     def loops(self):
         right = Loop("for i in range(start + 1, stop)", self.inv_right)
-        right.exact_last = True  # python semantics of the loop variable after the loop (read at `self.envs[i] |= ...`)
+        right.exact_last = True  # python semantics of the loop variable after the loop (a read of `i` there is exact)
         return {0: Loop("for i in reversed(range(start, stop - 1))", self.inv_left), 1: right}
 
     def apply(self, cx, a, node, case=None):
@@ -2494,6 +2496,8 @@ def same_value(a, b):
     if (is_z3(a) or isinstance(a, (int, float))) and (is_z3(b) or isinstance(b, (int, float))) and \
             not isinstance(a, bool) and not isinstance(b, bool):
         return R(a) == R(b)
+    if isinstance(a, (str, bool, type(None))) or isinstance(b, (str, bool, type(None))):
+        return type(a) is type(b) and a == b
     return a is b
 
 
@@ -2912,3 +2916,232 @@ class ContractBoundaryFrom(T2Contract):
         if a.mode == "dm":
             d["1d-method-name-handed-on"] = kw.get("method") == a.mode
         return d
+
+
+# ---- _contract_boundary_core: cap threading to every compress call ---------------------------------------------
+
+
+class SeqR:
+    """a range-like sequence of symbolic length n: item t is start + t*step (or an opaque item when start is None)"""
+
+    def __init__(self, n, start=None, step=1, what="item"):
+        self.n, self.start, self.step, self.what = n, start, step, what
+
+
+class R2DV:
+    """[leaf, reading of Rotator2D.__init__] rotated view for a sweep from `from_which`: plane = from_which[0]; sweep runs
+    over the plane coordinate from the starting side inwards (istep = +1 from 'min', -1 from 'max'); sweep_other over the
+    other coordinate"""
+
+    def __init__(self, cx, tn, xrange, yrange, from_which):
+        self.plane = from_which[0]
+        own, other = (xrange, yrange) if self.plane == "x" else (yrange, xrange)
+        imin, imax = Min(own[0], own[1]), Max(own[0], own[1])
+        jmin, jmax = Min(other[0], other[1]), Max(other[0], other[1])
+        self.istep = 1 if from_which[1:] == "min" else -1
+        self.sweep = SeqR(imax - imin + 1, imin if self.istep == 1 else imax, self.istep)
+        self.sweep_other = SeqR(jmax - jmin + 1, jmin, 1)
+        self.site_tag = ("site_tag_fn", self.plane)
+
+
+class TagV:
+    def __init__(self, i, j):
+        self.i, self.j = i, j
+
+
+class TagMapV:
+    pass
+
+
+class TidSetV:
+    pass
+
+
+@register
+class ContractBoundaryCore(T2Contract):
+    """_contract_boundary_core(xrange, yrange, from_which, max_bond, cutoff, ...): every compress call -- the per-bond
+    _compress_between_tids calls (compress_late=False) and the per-line compress_plane call (compress_late=True) -- receives
+    the caller's max_bond, cutoff, equalize_norms and compress_opts (only the default absorb='right' ADDED) unchanged; the
+    compressed line is the line just contracted, over the full other range; canonize_plane sweeps opposite to compress_plane.
+    KNOWN DEFECT (kept failing): max_bond=None (documented 'no cap') with compress_late=False compares an int with None."""
+
+    target = f"{TN2}._contract_boundary_core"
+    floor = 30
+
+    def cases(self):
+        out = []
+        for fw in DIRS2:
+            for late in (True, False):
+                for mb in ("int", "None"):
+                    for lt in ("None", "two"):
+                        if (fw != "xmin" and (mb == "None" or lt == "two")):
+                            continue
+                        out.append(NS(name=f"from_which={fw},compress_late={late},max_bond={mb},layer_tags={lt}", fw=fw, late=late,
+                                      mb=mb, lt=lt, absorb=False))
+        for late in (True, False):  # the caller's own absorb option must survive the default
+            out.append(NS(name=f"from_which=xmin,compress_late={late},max_bond=int,layer_tags=None,compress_opts=with-absorb",
+                          fw="xmin", late=late, mb="int", lt="None", absorb=True))
+        return out
+
+    def inputs(self, cx, case):
+        ref = new_tn2d(cx)
+        copts = {"method": cx.Opaque("method"), "cutoff_mode": cx.Opaque("cutoff_mode")}
+        if case.absorb:
+            copts["absorb"] = "both"
+        cx.ghost["copts0"] = dict(copts)
+        return dict(self=ref, xrange=(cx.Int("x0"), cx.Int("x1")), yrange=(cx.Int("y0"), cx.Int("y1")), from_which=case.fw,
+                    max_bond=cx.Int("max_bond") if case.mb == "int" else None, cutoff=cx.Real("cutoff"), canonize=cx.Bool("canonize"),
+                    layer_tags=None if case.lt == "None" else ["KET", "BRA"], compress_late=case.late,
+                    sweep_reverse=cx.Bool("sweep_reverse"), equalize_norms=cx.Opaque("equalize_norms"), compress_opts=copts,
+                    canonize_opts=None)
+
+    def want_copts(self, cx):
+        d = dict(cx.ghost["copts0"])
+        d.setdefault("absorb", "right")
+        return d
+
+    def inv(self, v):
+        cx = v.cx
+        want = self.want_copts(cx)
+        return {"compress-options: the caller's, plus the default absorb='right', never modified":
+                And(set(v.compress_opts) == set(want), *[same_value(v.compress_opts.get(k, ABSENT), x) for k, x in want.items()]),
+                "canonize-options: default absorb='right' only": And(set(v.canonize_opts) == {"absorb"},
+                                                                      v.canonize_opts.get("absorb") == "right"),
+                "network-object-kept": v.self == v.old.self}
+
+    @property
+    def loops(self):
+        opaque = {"tag1": lambda cx: TagV(cx.Int("ti"), cx.Int("tj")), "tag2": lambda cx: TagV(cx.Int("ti"), cx.Int("tj")),
+                  "tid1": lambda cx: cx.Opaque("tid1"), "t1": lambda cx: cx.Opaque("t1"), "tn": lambda cx: cx.Opaque("tn")}
+        return {0: Loop("for i in r2d.sweep[:-1]", self.inv, retype=opaque),
+                2: Loop("for j in r2d.sweep_other", self.inv, retype=opaque),
+                3: Loop("for tidn in self._get_neighbor_tids(tid1)", self.inv, retype=opaque)}
+
+    def havoc_heap(self, cx):
+        pass
+
+    def attr(self, cx, base, attr, node):
+        if isinstance(base, R2DV) and attr in ("plane", "istep", "sweep", "sweep_other", "site_tag"):
+            return getattr(base, attr)
+        if isinstance(base, Ref) and base.kind == "TN2D" and attr == "tag_map":
+            return TagMapV()
+        return super().attr(cx, base, attr, node)
+
+    def opts_ok(self, cx, got):
+        want = self.want_copts(cx)
+        if not isinstance(got, dict):
+            return False
+        return And(set(got) == set(want), *[same_value(got.get(k, ABSENT), x) for k, x in want.items()])
+
+    def call(self, cx, name, args, kwargs, node):
+        line = getattr(node, "lineno", 0)
+        a = cx.old
+        if name == "Rotator2D":
+            return R2DV(cx, *args)
+        if name == "__getslice__" and isinstance(args[0], SeqR):
+            s, lo, hi, st = args
+            if not (lo is None and hi == -1 and st is None):
+                raise Unsupported("slice of a sweep other than [:-1]")
+            return SeqR(Max(s.n - 1, 0), s.start, s.step)
+        if name == "__iter__" and isinstance(args[0], SeqR):
+            s = args[0]
+            if s.start is None:
+                return (s.n, lambda t: cx.uf("nbr_tid", [Z(t)]))
+            return (s.n, lambda t, s=s: s.start + t * s.step)
+        if name == "site_tag" and len(args) == 2:
+            return TagV(args[0], args[1])
+        if name == "__contains__" and isinstance(args[0], TagMapV):
+            return cx.Bool("tag_present")
+        if name == "__getitem__" and isinstance(args[0], TagMapV):
+            return TidSetV()
+        if name == "__getitem__" and isinstance(args[0], Ref) and isinstance(args[1], TagV):
+            return cx.Opaque("tensor")
+        if name == "__len__" and isinstance(args[0], TidSetV):
+            n = cx.Int("ntids")
+            cx.assume(n >= 1)
+            return n
+        if name == "__unpack__" and isinstance(args[0], TidSetV):
+            return [cx.Opaque("tid") for _ in range(args[1])]
+        if name == "__binop__" and args[0] == "BitXor" and isinstance(args[1], Ref) and isinstance(args[2], TagV):
+            cx.events.append(("contract-tag", args[1]))
+            return args[1]
+        if name == "__cmp__":
+            sym, x, y = args
+            if x is None or y is None:
+                raise PyRaise("TypeError", line)  # '>' not supported between instances of 'int' and 'NoneType'
+            return NotImplemented
+        if name == "bonds_size":
+            n = cx.Int("bonds_size")
+            cx.assume(n >= 1)
+            return n
+        if name.startswith(".") and isinstance(args[0], Ref) and args[0].kind == "TN2D":
+            m, rest = name[1:], args[1:]
+            oblige_structural(cx, f"op@{line}:{m}: applied to the network itself", "call-arg", args[0] == a.self, line)
+            if m in ("contract_", "contract_between"):
+                cx.events.append((m, args[0]))
+                return None
+            if m == "_get_neighbor_tids":
+                n = cx.Int("n_nbrs")
+                cx.assume(n >= 0)
+                return SeqR(n, None, 1, "tid")
+            if m == "_tids_get":
+                return tuple(cx.Opaque("t") for _ in rest)
+            if m == "_compress_between_tids":
+                cx.oblige(f"call-arg@{line}:_compress_between_tids: receives the caller's max_bond and cutoff unchanged", "call-arg",
+                          And(same_value(kwargs.get("max_bond", ABSENT), a.max_bond), same_value(kwargs.get("cutoff", ABSENT), a.cutoff)),
+                          line)
+                oblige_structural(cx, f"call-arg@{line}:_compress_between_tids: receives the caller's equalize_norms", "call-arg",
+                                  kwargs.get("equalize_norms") is a.equalize_norms, line)
+                rest_kw = {k: x for k, x in kwargs.items() if k not in ("max_bond", "cutoff", "equalize_norms")}
+                cx.oblige(f"call-arg@{line}:_compress_between_tids: receives the caller's compress_opts (+ default absorb) unchanged",
+                          "call-arg", self.opts_ok(cx, rest_kw), line)
+                cx.events.append(("compress-bond", args[0]))
+                return None
+            if m in ("compress_plane", "canonize_plane"):
+                r2 = cx.env["r2d"]
+                i = cx.env["i"]
+                own, other = ("xrange", "yrange") if r2.plane == "x" else ("yrange", "xrange")
+                cx.oblige(f"call-arg@{line}:{m}: acts on the line just contracted, over the caller's full other range", "call-arg",
+                          And(cx.eq_values(kwargs.get(own), (i, i)), cx.eq_values(kwargs.get(other), a[other])), line)
+                rev = a.sweep_reverse if m == "compress_plane" else Not(a.sweep_reverse)
+                cx.oblige(f"call-arg@{line}:{m}: sweep direction ({'sweep_reverse' if m == 'compress_plane' else 'the opposite'})",
+                          "call-arg", And(Z(kwargs.get("xreverse")) == Z(rev), Z(kwargs.get("yreverse")) == Z(rev)), line)
+                oblige_structural(cx, f"call-arg@{line}:{m}: receives the caller's equalize_norms", "call-arg",
+                                  kwargs.get("equalize_norms") is a.equalize_norms, line)
+                if m == "compress_plane":
+                    cx.oblige(f"call-arg@{line}:compress_plane: receives the caller's max_bond and cutoff unchanged", "call-arg",
+                              And(same_value(kwargs.get("max_bond", ABSENT), a.max_bond),
+                                  same_value(kwargs.get("cutoff", ABSENT), a.cutoff)), line)
+                    cx.oblige(f"call-arg@{line}:compress_plane: receives the caller's compress_opts (+ default absorb) unchanged",
+                              "call-arg", self.opts_ok(cx, kwargs.get("compress_opts")), line)
+                else:
+                    co = kwargs.get("canonize_opts")
+                    oblige_structural(cx, f"call-arg@{line}:canonize_plane: canonize_opts with absorb='right'", "call-arg",
+                                      isinstance(co, dict) and co.get("absorb") == "right", line)
+                cx.events.append((m, args[0]))
+                return None
+        if name == ".drop_tags" and isinstance(args[0], Opaque):
+            return None
+        return super().call(cx, name, args, kwargs, node)
+
+    def ensures(self, a, r, cx, case):
+        return {"returns-None": r is None,
+                "caller's-compress_opts-dict-not-touched": set(a.compress_opts) == set(cx.ghost["copts0"])}
+
+    def replay(self, model):
+        import warnings
+
+        import quimb.tensor as qtn
+
+        warnings.simplefilter("ignore")
+        tn = qtn.TN2D_rand(4, 4, 2, seed=1)
+        out = {}
+        for label, kw in (("max_bond=None, compress_late=False", dict(max_bond=None, compress_late=False)),
+                          ("max_bond=None (compress_late default)", dict(max_bond=None)),
+                          ("max_bond=64, compress_late=False", dict(max_bond=64, compress_late=False))):
+            try:
+                out[label] = f"value {tn.contract_boundary(**kw):.6f} (exact {tn ^ all:.6f})"
+            except Exception as e:  # noqa
+                out[label] = f"{type(e).__name__}: {e}"
+        return dict(call="TN2D_rand(4, 4, 2, seed=1).contract_boundary(max_bond=None, compress_late=False)", observed=out,
+                    reproduced=out["max_bond=None, compress_late=False"].startswith("TypeError"))
